@@ -13,7 +13,7 @@ import numpy as np
 
 FN = {
     "sin": math.sin, "cos": math.cos, "tanh": math.tanh, "exp": math.exp, "sqrt": math.sqrt,
-    "sinh": math.sinh, "cosh": math.cosh, "arctan": math.atan, "atan": math.atan, "log": math.log,
+    "sinh": math.sinh, "cosh": math.cosh, "arctan": math.atan, "atan": math.atan, "log": math.log, "Abs": abs,
 }
 
 
